@@ -894,7 +894,12 @@ func (u *unmarshalState) decode(n *jnode, t types.Type, addr *value, depth int) 
 		case jNull:
 			return
 		case jTime:
-			store(t, addr, copyVal(n.timeV))
+			// the text carries the offset, not the Location: "Z" parses as UTC,
+			// another offset as a fresh fixed zone (std_timezone.go)
+			tv := copyVal(n.timeV).(structure)
+			lp, _ := tv[2].(*value)
+			tv[2] = u.i.env.decodedLoc(lp)
+			store(t, addr, tv)
 			return
 		case jStr:
 			txt, ok := n.str.(string)
@@ -905,7 +910,16 @@ func (u *unmarshalState) decode(n *jnode, t types.Type, addr *value, depth int) 
 			if err != nil {
 				panic(jsonAbort{u.i.newErr("parsing time " + strconv.Quote(txt) + ": " + err.Error())})
 			}
-			store(t, addr, structure{uint64(1), tm.UnixNano(), (*value)(nil)})
+			loc := (*value)(nil)
+			if _, off := tm.Zone(); off != 0 {
+				var c value = structure{"", int64(off)}
+				loc = &c
+			}
+			wall := uint64(1)
+			if tm.IsZero() {
+				wall = 0
+			}
+			store(t, addr, structure{wall, tm.UnixNano(), loc})
 			return
 		}
 		u.typeErr(nodeKindName(n), t)
